@@ -192,7 +192,33 @@ pub fn expr_coordinate_deg(e: &Expression) -> String {
         PrefixOp { rhe, prefix_op, .. } => format!("PrefixOp({prefix_op})[{}]", b(rhe)),
         SwitchOp { cond, if_true, if_false, .. } => format!("SwitchOp[{},{},{}]", b(cond), b(if_true), b(if_false)),
         Call { args, .. } => format!("Call[{}]", args.iter().map(|a| b(a)).collect::<Vec<_>>().join(",")),
-        Access { .. } => "Access".to_string(),
+        Access { access, .. } => {
+            // What selects the element: kind and claimed bound of the first index that is not a
+            // literal (a local, a signal, a call, ...).
+            let idx = access.iter().find_map(|a| match a {
+                program_structure::ir::AccessType::ArrayAccess(i) if !matches!(i.as_ref(), Number(..)) => Some(i.as_ref()),
+                _ => None,
+            });
+            match idx {
+                None => "Access".to_string(),
+                Some(i) => {
+                    let kind = match i {
+                        Variable { .. } | Access { .. } => {
+                            if i.meta().type_knowledge().is_signal() {
+                                "signal"
+                            } else if i.meta().type_knowledge().is_local() {
+                                "local"
+                            } else {
+                                "other"
+                            }
+                        }
+                        Call { .. } => "call",
+                        _ => "expr",
+                    };
+                    format!("Access[index={kind}:{}]", b(i))
+                }
+            }
+        }
         Update { rhe, .. } => format!("Update[rhe={}]", b(rhe)),
         _ => expr_coordinate(e),
     }
@@ -310,7 +336,7 @@ pub fn audit_source(src: &str, field: &Field, case: &Value, params_vary: bool) -
 // ---------------------------------------------------------------------------------------------
 // Operator table
 
-pub const OPERANDS: [&str; 19] = [
+pub const OPERANDS: [&str; 20] = [
     "3", "n", "k", "in", "in2", "in * in", "in * in * in2", "c.out", "arr[0]", "arr[n]", "la[0]", "seven()", "inc(in)", "cube(in)",
     // elements selected by a signal: a table of constants, an array of signals
     "lc[in]", "arr[in]",
@@ -318,6 +344,8 @@ pub const OPERANDS: [&str; 19] = [
     "sc",
     // two-dimensional table of constants: literal index first, signal later, and the reverse
     "lc2[0][in]", "lc2[in][1]",
+    // an index whose own degree the analysis cannot bound (a call on a signal)
+    "lc[inc(in)]",
 ];
 pub const SMALL_OPERANDS: [&str; 5] = ["3", "n", "in", "in2", "in * in"];
 pub const INFIX: [&str; 20] = [
@@ -327,7 +355,7 @@ pub const PREFIX: [&str; 3] = ["-", "!", "~"];
 
 pub fn template_with(expr: &str) -> String {
     format!(
-        "template T(n) {{\n    signal input in;\n    signal input in2;\n    signal input arr[4];\n    signal output out;\n    component c = Sub();\n    var k = 2;\n    var la[2];\n    la[0] = in;\n    la[1] = 3;\n    var lc[4] = [5, 7, 11, 2];\n    signal sc;\n    sc <== 2;\n    var lc2[2][4] = [[5, 7, 11, 2], [3, 1, 4, 1]];\n    out <-- {expr};\n}}\n"
+        "template T(n) {{\n    signal input in;\n    signal input in2;\n    signal input arr[4];\n    signal output out;\n    component c = Sub();\n    var k = 2;\n    var la[2];\n    la[0] = in;\n    la[1] = 3;\n    var lc[8] = [5, 7, 11, 2, 3, 13, 1, 8];\n    signal sc;\n    sc <== 2;\n    var lc2[2][4] = [[5, 7, 11, 2], [3, 1, 4, 1]];\n    out <-- {expr};\n}}\n"
     )
 }
 
@@ -393,7 +421,7 @@ pub fn table_exprs(depth2: bool, function: bool) -> Vec<String> {
 // ---------------------------------------------------------------------------------------------
 // Merging sweep
 
-pub const MG_ATOMS: usize = 11;
+pub const MG_ATOMS: usize = 12;
 pub const MG_CONDS: usize = 2;
 
 struct MergeFiller {
@@ -420,7 +448,9 @@ impl Filler for MergeFiller {
             8 => Atom::assign("la[0]", "in * in * in2"),
             // calls whose argument is a (possibly loop-carried, hence unbounded) variable
             9 => Atom::assign("la[0]", "cube(x)"),
-            _ => Atom::assign("x", "inc(x) * in"),
+            10 => Atom::assign("x", "inc(x) * in"),
+            // a table of constants indexed by a (possibly loop-carried) local
+            _ => Atom::new("mid <-- lc[x]", vec![Ev::Assign("mid <-- lc[x]".into())]),
         }
     }
     fn cond(&mut self, _is_loop: bool) -> Cond {
@@ -453,6 +483,7 @@ pub fn merge_def(skel: &[Sk], atoms: &[usize], conds: &[usize]) -> Def {
         Node::Atom(Atom::decl_var_init("x", "1")),
         Node::Atom(Atom::decl_var_init("k", "0")),
         Node::Atom(Atom::new("var la[2] = [0, 0]", vec![])),
+        Node::Atom(Atom::new("var lc[8] = [5, 7, 11, 2, 3, 13, 1, 8]", vec![])),
     ];
     body.extend(instantiate(skel, &mut filler));
     body.push(Node::If {
@@ -466,12 +497,12 @@ pub fn merge_def(skel: &[Sk], atoms: &[usize], conds: &[usize]) -> Def {
 pub fn run(run: &Run) {
     run.set_rule(
         "operator table: `out <-- E` in a template (signals/ports = indeterminates) and `return E` in a \
-         function (parameters = indeterminates) for E = A op B, op A, C ? A : B over 19 operand classes \
+         function (parameters = indeterminates) for E = A op B, op A, C ? A : B over 20 operand classes \
          {literal, parameter, local constant, input signals, in*in, in*in*in2, component port, signal \
          array element with constant/parameter/signal index, local array element, constant tables (one and two dimensions) indexed by a signal, signal assigned a constant, calls with constant / \
          signal arguments} and (thorough) depth-2 combinations over 5 classes; merging sweep: \
-         skeletons x 11 atoms {x=in, x=x*in, x=2, la[0]=cube(in), la[1]=1, out<--x, mid<--la[0], \
-         x=x+in2, la[0]=in*in*in2, la[0]=cube(x), x=inc(x)*in} x 2 conditions; every node with a claimed bound is evaluated on 6 bases x 5 \
+         skeletons x 12 atoms {x=in, x=x*in, x=2, la[0]=cube(in), la[1]=1, out<--x, mid<--la[0], \
+         x=x+in2, la[0]=in*in*in2, la[0]=cube(x), x=inc(x)*in, mid<--lc[x]} x 2 conditions; every node with a claimed bound is evaluated on 6 bases x 5 \
          directions x 4 points; non-trivial = at least one claim was tested on at least one line",
     );
     let (_, p) = real_primes().into_iter().next().unwrap();
